@@ -35,6 +35,7 @@ type lcReq struct {
 	kind string
 	k    int    // topic ref
 	arg  string // unsub flag
+	as   string // "" (the name the user normally uses) | "grp" | "chn": name form of a group/channel topic in the request
 }
 
 type lcSess struct {
@@ -62,6 +63,7 @@ type lcTopic struct {
 	name   string // hub name
 	owner  int
 	u1, u2 int
+	member map[int]bool // grp/chn: users with a stored group subscription at set-up (the others address a chn topic as chnXXX)
 }
 
 type lcScn struct {
@@ -263,7 +265,7 @@ func (sc *lcScn) seen(t *lcTopic, user int) string {
 		}
 		return sc.uids[t.u1].UserId()
 	case "chn":
-		if user != t.owner {
+		if user != t.owner && !t.member[user] {
 			return types.GrpToChn(t.name)
 		}
 	}
@@ -274,6 +276,15 @@ func (sc *lcScn) reqJSON(ls *lcSess, r lcReq) string {
 	tn := ""
 	if t := sc.topics[r.k]; t != nil {
 		tn = sc.seen(t, ls.user)
+		if t.kind == "grp" || t.kind == "chn" {
+			// explicit name form: the same topic addressed by its group name or by its channel name
+			switch r.as {
+			case "grp":
+				tn = t.name
+			case "chn":
+				tn = types.GrpToChn(t.name)
+			}
+		}
 	}
 	switch r.kind {
 	case "sub":
@@ -769,6 +780,11 @@ func (sc *lcScn) runBurst() {
 		if len(w) > 5 {
 			r.arg = w[5]
 		}
+		for _, x := range w[4:] {
+			if strings.HasPrefix(x, "as=") {
+				r.as = x[3:]
+			}
+		}
 		if ls := sc.sess[si]; ls != nil && atomic.LoadInt32(&ls.dead) == 0 {
 			ls.reqCh <- r
 		} else if ls != nil {
@@ -828,12 +844,16 @@ func (sc *lcScn) dump() {
 			continue
 		}
 		var ss []string
+		var chs, chu []string // sessions attached as channel subscriptions (perSessionData.isChanSub); users cached as channel readers (perUserData.isChan)
 		att := map[int]int{}
 		for s, pssd := range tt.sessions {
 			found := false
 			for i, ls := range sc.sess {
 				if ls.s == s {
 					ss = append(ss, strconv.Itoa(i))
+					if pssd.isChanSub {
+						chs = append(chs, strconv.Itoa(i))
+					}
 					found = true
 					if !s.background {
 						att[sc.uidIdx[pssd.uid]]++
@@ -848,12 +868,17 @@ func (sc *lcScn) dump() {
 		var on []string
 		for uid, pud := range tt.perUser {
 			on = append(on, fmt.Sprintf("%d:%d", sc.uidIdx[uid], pud.online))
+			if pud.isChan {
+				chu = append(chu, strconv.Itoa(sc.uidIdx[uid]))
+			}
 		}
 		sort.Strings(on)
+		sort.Strings(chs)
+		sort.Strings(chu)
 		st := atomic.LoadInt32(&tt.status)
-		fmt.Fprintf(sc.out, "state topic %d loaded=1 stored=%s paused=%s deleted=%s sessions=%s online=%s queues=%d\n", k, vB2s(lcStored(t)),
+		fmt.Fprintf(sc.out, "state topic %d loaded=1 stored=%s paused=%s deleted=%s sessions=%s online=%s queues=%d ischan=%s chansess=%s chanusers=%s\n", k, vB2s(lcStored(t)),
 			vB2s(st&topicStatusPaused != 0), vB2s(st&topicStatusMarkedDeleted != 0), strings.Join(ss, ","), strings.Join(on, ","),
-			len(tt.reg)+len(tt.unreg)+len(tt.meta)+len(tt.clientMsg)+len(tt.exit))
+			len(tt.reg)+len(tt.unreg)+len(tt.meta)+len(tt.clientMsg)+len(tt.exit), vB2s(tt.isChan), strings.Join(chs, ","), strings.Join(chu, ","))
 	}
 	fmt.Fprintf(sc.out, "goroutines %d\n", runtime.NumGoroutine())
 }
@@ -970,7 +995,13 @@ func TestVerifLifecycle(t *testing.T) {
 					}
 				}
 			}
-			sc.topics[k] = &lcTopic{k: k, kind: w[0], name: name, owner: owner}
+			member := map[int]bool{owner: true}
+			for _, m := range strings.Split(kv["members"], ",") {
+				if mi, _ := strconv.Atoi(m); mi != 0 {
+					member[mi] = true
+				}
+			}
+			sc.topics[k] = &lcTopic{k: k, kind: w[0], name: name, owner: owner, member: member}
 		case "p2p":
 			k, _ := strconv.Atoi(w[1])
 			u1, _ := strconv.Atoi(w[2])
